@@ -220,6 +220,7 @@ def wild_to_re(p):
     return re.compile('(?s)\\A' + ''.join(out) + '\\Z')
 
 
+WORDS_FOLD = st.text(st.sampled_from('aAsSe\u00df\ufb01fi\u03c3\u03c2'), min_size=1, max_size=5)     # letters whose case folding is another letter or two letters: one ? stands for one of them
 WORDS = st.text(st.sampled_from('abAB[]!-.x1 ~\n'), min_size=1, max_size=5)       # (a tilde is a character like any other: only * and ? are wildcards)
 
 
@@ -245,9 +246,10 @@ def match_case(draw):
         if draw(st.integers(0, 3)) == 0 and float(x).is_integer() and abs(x) < 2 ** 53:
             x = float(x) if isinstance(x, int) else int(x)       # 30 looked up among 10.0, 20.0, 30.0 (or 60/2 among integers): the same number
         return {'kind': kind, 'arr': arr, 'x': x, 'how': how, 'deftype': draw(st.booleans())}
-    arr = draw(st.lists(WORDS, min_size=1, max_size=8))
+    words = WORDS_FOLD if draw(st.integers(0, 4)) == 0 else WORDS
+    arr = draw(st.lists(words, min_size=1, max_size=8))
     if kind == 'text0':
-        x = draw(st.one_of(st.sampled_from(arr), st.sampled_from(arr).map(lambda s: s.swapcase()), WORDS))
+        x = draw(st.one_of(st.sampled_from(arr), st.sampled_from(arr).map(lambda s: s.swapcase()), words))
         x = x.replace('*', '').replace('?', '') or 'a'
     else:
         w = draw(st.sampled_from(arr))
@@ -256,7 +258,7 @@ def match_case(draw):
         # near misses first, so that a pattern matching too much or too little picks the wrong position
         near = [w[:i] + w[i + 1:], w[:i] + 'x' + w[i:], w + 'b', w[1:]]
         arr = [n for n in draw(st.lists(st.sampled_from(near), max_size=3)) if n] + arr
-        x = draw(st.sampled_from([w[:i] + '*' + w[j:], w[:i] + '?' * (j - i) + w[j:], '*' + w[j:], w[:i] + '*', '?' + w[1:], draw(WORDS) + '*',
+        x = draw(st.sampled_from([w[:i] + '*' + w[j:], w[:i] + '?' * (j - i) + w[j:], '*' + w[j:], w[:i] + '*', '?' + w[1:], draw(words) + '*',
                                   w[:i] + '?' + w[i:], w + '?', '?' + w, w[:i] + '?' + w[i + 1:]]))
         if draw(st.booleans()):
             x = x.swapcase()
@@ -297,6 +299,12 @@ def check_match(case):
     else:
         rx = wild_to_re(x.lower())
         accepted = [i + 1 for i, a in enumerate(arr) if rx.match(a.lower())][:1]
+        # which letters are "the same letter in the other case" beyond the simple mapping (sharp s and SS, the two small sigmas) is not stated: a case is kept
+        # only when the literal letters of x have one folding and the simple and the full folding select the same item
+        lit_x = x.replace('*', '').replace('?', '')
+        rxf = wild_to_re(''.join(c if c in '*?' else c.casefold() for c in x)) if len(lit_x.casefold()) == len(lit_x) else None
+        if lit_x.casefold() != lit_x.lower() or rxf is None or (kind == 'text0' and [i + 1 for i, a in enumerate(arr) if rxf.match(a.casefold())][:1] != accepted):
+            raise Skip('case-folding-not-stated')
     if not accepted:
         if res['error'] != '#N/A':
             raise Violation('%s -> %r, expected #N/A' % (desc, res['error'] or g), res['error'] or enc(g), '#N/A')
